@@ -191,6 +191,31 @@ def gen_case(rng, big=False):
             'wf': wf, 'stokes': stokes, 'fseed': int(rng.integers(0, 2 ** 31))}
 
 
+def gen_small_fresnel(rng):
+    """A Fresnel propagator on the transfer-function branch small enough for the exact propagation of the model (driver op `prop`)."""
+    while True:
+        case = gen_case(rng)
+        nx, ny = [(2, 2), (3, 3), (2, 3), (3, 2), (4, 4), (4, 3), (2, 4), (5, 2), (3, 5), (5, 5)][int(rng.integers(0, 10))]
+        dx, dy = case['delta']
+        q = [1.0, 1.0, 1.5, 2.0, [1.0, 2.0], [2.0, 1.0], 4 / 3][int(rng.integers(0, 7))]
+        s = [1, 1, 2, [1, 2], [2, 1]][int(rng.integers(0, 5))]
+        zmax = min(dx, dy) * max(nx * dx, ny * dy) / case['lam']
+        z = zmax * int(rng.integers(1, 65)) / 64.0 * (1 if rng.random() < 0.5 else -1)
+        case.update({'kind': 'fresnel', 'dims': [nx, ny], 'q': q, 's': s, 'qspell': None, 'sspell': None, 'z': z, 'z2': z / 4, 'wf': 'scalar', 'stokes': None,
+                     'zero': [-dx * (nx - 1) / 2, -dy * (ny - 1) / 2], 'alias': False, 'small': True})
+        if prop_affordable(case):
+            return case
+
+
+def prop_affordable(case):
+    if case['kind'] != 'fresnel' or case['wf'] != 'scalar' or case['z'] == 0:
+        return False
+    reg = exact_regime(case)
+    nx, ny = case['dims']
+    mm, ss = reg['M'][0] * reg['M'][1], sxy(case)[0] * sxy(case)[1]
+    return (not reg['ir']) and mm <= 36 and nx * ny * mm * mm * ss <= 9000
+
+
 def directed():
     cases = []
     base = {'zero': None, 'n': 1.0, 'wf': 'scalar', 'stokes': None, 'fseed': 3}
@@ -412,7 +437,15 @@ def model_requests(case, obs, rng, head=None):
             lines.append('C04 stokesI [%s] [%s]' % (','.join(rat(float(v)) for v in case['stokes']), ','.join(rat(v) for v in vals)))
             obs['stokes_req'].append(float(img[k]))
     # impulse-response branch: the whole sampled impulse response (small internal grids only)
-    obs['n_fixed'] = len(lines) - (len(head) if head is not None else 1)     # emb + tfq + stokesI answers
+    # the whole propagation computed exactly by the model (small Fresnel cases on the transfer-function branch)
+    obs['prop_req'] = []
+    if prop_affordable(case) and obs.get('ex') is not None and np.asarray(obs['ex']).ndim == 1:
+        for back, e_in, e_out in ((0, obs['ex'], obs['efx']), (1, obs.get('ey'), obs.get('eby'))):
+            if e_in is not None and all(float(v * 16).is_integer() for v in np.concatenate([np.asarray(e_in).real, np.asarray(e_in).imag])):
+                lines.append('C04 prop %d %s %s' % (back, '[%s]' % ','.join(rat(float(v)) for v in np.asarray(e_in).real),
+                                                   '[%s]' % ','.join(rat(float(v)) for v in np.asarray(e_in).imag)))
+                obs['prop_req'].append((back, np.asarray(e_out)))
+    obs['n_fixed'] = len(lines) - (len(head) if head is not None else 1)     # emb + tfq + stokesI + prop answers
     if obs['reg']['ir'] and case['z'] != 0 and M[0] * M[1] * sxy(case)[0] * sxy(case)[1] <= IR_BUDGET:
         for jy in range(M[1]):
             lines.append('C04 ir %d' % jy)
@@ -500,8 +533,21 @@ def compare_model(ctx, case, obs, pix, answers):
     worst = 0.0
     kemb = _kv(answers[1])
     tf_answers = answers[2:2 + len(pix)]
-    st_answers = answers[2 + len(pix):1 + obs['n_fixed']]
+    npr = len(obs.get('prop_req', []))
+    st_answers = answers[2 + len(pix):1 + obs['n_fixed'] - npr]
+    pr_answers = answers[1 + obs['n_fixed'] - npr:1 + obs['n_fixed']]
     ir_rows = answers[1 + obs['n_fixed']:]
+    # the exact propagation of the model (formal phase sums, evaluated here) against forward() / backward() of the real propagator
+    for resp, (back, real) in zip(pr_answers, obs.get('prop_req', [])):
+        if not resp.startswith('ok'):
+            raise MachineryError('C04 prop: driver answered %r for %r' % (resp, case))
+        got = np.array([sum((float(parse_rat(c)) * np.exp(2j * np.pi * float(parse_rat(t))) for c, t in (term.split(':') for term in pix_.split(',') if term)), 0j)
+                        for pix_ in resp.split('out=', 1)[1].split(';')])
+        ctx.traces_validated += 1
+        ctx.count('fresnel-propagation-executed(prop):' + ('backward' if back else 'forward'))
+        if got.shape != real.shape or not np.abs(got - real).max() <= 1e-10 * max(1.0, float(np.abs(real).max())):
+            ctx.disagree('C04 executed Fresnel propagation', {'case': case, 'direction': 'backward' if back else 'forward',
+                                                              'max_dev': float(np.abs(got - real).max()) if got.shape == real.shape else None})
     for (qx, qy), resp in zip(pix, tf_answers):
         ctx.traces_validated += 1
         kq = _kv(resp)
@@ -1172,6 +1218,7 @@ def run(ctx):
                         'a fresh propagator is built per case (instance-cache reuse is finding D3, owned by C05)']
     n = ctx.scale(1400, 20000)
     cases = directed() + [gen_case(ctx.rng, big=(ctx.tier == 'thorough' and k % 4 == 0)) for k in range(n)]
+    cases += [gen_small_fresnel(ctx.rng) for _ in range(ctx.scale(40, 500))]
     all_lines, spans, kept = [], [], []
     with warnings.catch_warnings():
         warnings.simplefilter('ignore')
